@@ -13,7 +13,7 @@ A_COMMON = ("Trusted base: go/types+go/ssa, govc's translation and memory model,
 
 A_TREE = (" Tree tier: each nodeLoc/itemLoc slot denotes an abstract tree/item held in ghost arrays (tvs/ias); nodeLoc.read/itemLoc.read POSTULATE that what they return denotes the slot "
           "(justified by the codec round trip C14 and the append-only file C09, not re-proved per call) and that a node reachable from a live root has not been recycled (the C10 ownership argument, DESIGN 5.C10; "
-          "D6 shows where it breaks). Lemmas about the spec functions proved on paper (DESIGN section 4): L1 (no member of a heap-ordered search tree outranks the root), L2 (cnt of a search tree = number of its keys).")
+          "D6 shows where it breaks). Lemmas about the spec functions that the solvers take as axioms are proved in Lean 4 + Mathlib over hand-transcribed definitions (/verif/lean): L1 (no member of a heap-ordered search tree outranks the root), L2 (cnt of a search tree = number of its keys), U (treap uniqueness).")
 
 claim("C14", "proof",
       "Byte-exact layout of item records (16-byte big-endian header, key, value), 52-byte node records and the root record framing is proved as "
@@ -34,7 +34,7 @@ claim("C01", "proof",
 claim("C13", "proof",
       "Proved for every node construction site in union/split/join/SetItem: mkNode is called with numNodes = cnt and numBytes = sumb of the abstract children plus the item (exact aggregates, a precondition of mkNode discharged at every call site, numInfo proved to return them); "
       "search order (bst) is a postcondition of union/split/join/SetItem/Delete; heap order (hp) is preserved by split, join, Delete, and by union/SetItem exactly under the property's own condition (no key overwritten with a lower priority).",
-      A_COMMON + A_TREE + " Not decided: 'canonical shape' (depth determined by keys and priorities alone) is a consequence of bst+hp with distinct priorities (uniqueness lemma U, paper only); persisted aggregates = in-memory aggregates rests on the node codec (C14).")
+      A_COMMON + A_TREE + " 'Canonical shape' (depth determined by keys and priorities alone) follows from the proved bst+hp postconditions by lemma U (treap uniqueness under distinct priorities), which is proved in Lean (/verif/lean/LemmaU.lean, re-checked by the thorough tier) -- the step from 'the tree is a bst and a heap' to 'the reported depth is the unique one' is that lemma plus visitNodes' proved depth clause, composed on paper; persisted aggregates = in-memory aggregates rests on the node codec (C14).")
 
 claim("C03", "proof",
       "Proved: the root scan (scanBackwardsForMagicEnd, readRootsScan, checkAndReadRoots, readRoots, NewStoreEx) terminates and opens at the GREATEST position at which a complete, "
@@ -66,8 +66,9 @@ claim("C12", "proof",
 
 claim("C15", "other",
       "Proved per function (ghost net[i] = references gkvlite holds, updated only by the callback contracts): the dispatch wrappers on both arms, itemLoc.read (a loaded item has count 1, the replaced cached item is released once, nothing is leaked on error paths, key-only loads release nothing), "
-      "mkNode (a copied slot takes a reference), freeNodeUnlocked (the slot's reference is released once), GetItem/walk (the caller gets exactly one reference), Exist (balanced -- the leak D12 was found by this obligation and repaired).",
-      A_COMMON + " The invariant 'every occupied slot is backed by a count' is a `relies` clause; Get cannot release the reference it takes (API shape), the visits (D7) and Len are not under contract; whole-history balance ('once everything is closed') is not decided.")
+      "mkNode (a copied slot takes a reference), freeNodeUnlocked (the slot's reference is released once), GetItem/walk/MinItem/MaxItem (the caller gets exactly one reference: ghost counter of caller-owed references), Exist, Len, Delete (release what they took -- the leaks D12 in Exist and Len were found by these obligations and repaired), visitNodes and EvictSomeItems (an evicted item's reference is released -- D7 found and repaired), the last release of a version releases its chained successor, Snapshot pins every version.",
+      A_COMMON + " The invariant 'every occupied slot is backed by a count' is a `relies` clause; Get cannot release the reference it takes (recorded finding D12c). "
+      "BOUNDED (stand-in, not a proof) for what lies outside the contracts -- the block visits, the iterators, CopyTo, and the whole-history clause 'once everything is closed every reference has been released': a ledger driven only by the callbacks over runs of the real code: build n items (n in 0,1,2,3,5,8; thorough up to 34), persist and re-open (or not), ONE probe operation out of 23 (lookups, Len, Min/Max, visits with and without early stop, block visits, eviction, overwrite/insert/delete, snapshot read while the original moves on, iterators run out and abandoned, CopyTo), close everything; no count below zero, nothing handed out with a non-positive count, all counts zero at the end. This found the MinItem reference leaked by VisitItemsAscendBlockEx/VisitItemsRandom (repaired).")
 
 claim("C17", "proof",
       "Every obligation of itemLoc.write/read, Item.NumValBytes/NumBytes, itemLoc.NumBytes and the five dispatch wrappers is generated with the callback fields symbolic (nil or a neutral implementation per A9), "
